@@ -31,7 +31,19 @@ def o191(ctx):
     tree.tree_space = Space("pts", how="root")
     tree.tree_data = None
     act = Val(sym("active"), space=tree.tree_space)
-    it = Interp(ctx.prog, assume=assume_map({"id_max.size == 0": False, "rp_idx.size == 0": False, "dist_min > 0": True}))
+    am = assume_map({"dist_min > 0": True})
+
+    def assume(fn_, node_, av_, module_=None):
+        # `<array>.size == 0` (no candidate left) is the early-return path; the rule is about the pair returned when there is one
+        n_, neg = node_, False
+        while isinstance(n_, ast.UnaryOp) and isinstance(n_.op, ast.Not):
+            n_, neg = n_.operand, not neg
+        if isinstance(n_, ast.Compare) and len(n_.ops) == 1 and isinstance(n_.ops[0], (ast.Eq, ast.NotEq, ast.Gt)) and isinstance(n_.left, ast.Attribute) \
+                and n_.left.attr == "size" and isinstance(n_.comparators[0], ast.Constant) and n_.comparators[0].value == 0:
+            return (not isinstance(n_.ops[0], ast.Eq)) != neg
+        return am(fn_, node_, av_, module_)
+
+    it = Interp(ctx.prog, assume=assume)
     r = it.run(q, [tree, Unk(sym("qp")), P("dist_max"), P("dist_min"), act, P("test_value")], {})
     qs = [e for e in it.events if e.kind == "call" and e.name == "method:query_radius"]
     if len(qs) != 1 or not (isinstance(r.ret, Seq) and len(r.ret.items) == 2):
@@ -57,15 +69,46 @@ def o191(ctx):
             t = t.args[1]
         return t, chain[::-1]
 
-    bi, ci = peel(ids_t)
-    bd, cd = peel(dist_t)
+    def conj(t):
+        return [x for a_ in t.args for x in conj(a_)] if t.op == "and" else [t]
+
+    def first_match(t):
+        """the two spellings of 'the first element of <sorted result> that satisfies every filter':
+             result[m1][m2][0]                   (m2 computed on the already filtered arrays)
+             result[flatnonzero(m1 & m2)[0]]     (both masks on the unfiltered arrays)
+           -> (result, [filters as predicates over the unfiltered result]) or None"""
+        base, chain = peel(t)
+        if len(chain) >= 2 and chain[-1].op == "call" and chain[-1].args[0] == "elem" and tm.cval(chain[-1].args[2]) == 0 \
+                and chain[-1].args[1].op == "call" and chain[-1].args[1].args[0] == "where" and len(chain[-1].args[1].args) == 2:
+            return (base, chain[:-1]), conj(chain[-1].args[1].args[1])
+        if len(chain) >= 2 and tm.cval(chain[-1]) == 0:
+            sel, masks, k_ = chain[:1], [], 1
+            while k_ < len(chain) - 1:
+                m_ = chain[k_]
+                # a mask computed on arrays already filtered by the earlier masks: the same predicate on the unfiltered ones
+                for prev in masks:
+                    m_ = tm.subst(m_, {n: n.args[1] for n in tm.walk(m_) if n.op == "call" and n.args[0] == "getitem" and n.args[2] == prev})
+                masks.append(chain[k_])
+                sel.append(m_)
+                k_ += 1
+            preds = [x for m_ in sel[1:] for x in conj(m_)]
+            return (base, sel[:1]), preds
+        return None
+
+    fi, fd = first_match(ids_t), first_match(dist_t)
     ctx.count(1, {"returned index": tm.show(ids_t)[:200]})
-    ok = len(ci) >= 3 and len(cd) >= 3 and tm.cval(ci[-1]) == 0 and tm.cval(cd[-1]) == 0 and ci[1:-1] == cd[1:-1]
+    ok = fi is not None and fd is not None and sorted(x.key() for x in fi[1]) == sorted(x.key() for x in fd[1]) and fi[1] \
+        and all(tm.cval(x) == 0 for x in fi[0][1] + fd[0][1])
     if not ok:
         ctx.finding(q, "returned neighbour", "index and distance must be filtered by the same masks and element 0 of both returned "
                     "(the nearest admissible neighbour with its own distance)", fn, m, index=tm.show(ids_t)[:200], distance=tm.show(dist_t)[:200])
         return
-    masks = ci[1:-1]
+    ctx.count(1)
+    if not (tm.has_call(fi[0][0], ".query_radius") and not tm.has_call(fi[0][0], "unpack") or fi[0][0].args[-1:] == (const(0),)) \
+            or not (fd[0][0].op == "call" and fd[0][0].args[0] == "unpack" and tm.cval(fd[0][0].args[2]) == 1):
+        ctx.finding(q, "returned neighbour", "the index must come from the neighbour indices and the distance from the distances of the same "
+                    "radius query", fn, m, index=tm.show(fi[0][0])[:120], distance=tm.show(fd[0][0])[:120])
+    masks = fi[1]
     actm = [x for x in masks if tm.has_sym(x, "active") and not tm.has_sym(x, "dist_min")]
     dmin = [x for x in masks if tm.has_sym(x, "dist_min")]
     ctx.count(1, {"activity mask": tm.show(actm[0])[:120] if actm else None, "distance mask": tm.show(dmin[0])[:160] if dmin else None})
@@ -207,6 +250,15 @@ def o193(ctx):
                     "created per tomogram inside the tomogram loop (chains never span tomograms)", fl, m)
         return
     cat = [st for st in fl.body if isinstance(st, ast.Assign) and _has_concat(ctx.prog, m, st.value) and any(t in src(st.value) for t in tables)]
+    # or: the tomogram's table is appended to a list of parts that is concatenated after the loop
+    after = fn.body[fn.body.index(fl) + 1:] if fl in fn.body else []
+    for st in fl.body:
+        if isinstance(st, ast.Expr) and isinstance(st.value, ast.Call) and isinstance(st.value.func, ast.Attribute) and st.value.func.attr == "append" \
+                and isinstance(st.value.func.value, ast.Name) and len(st.value.args) == 1 and src(st.value.args[0]) in tables:
+            parts_ = st.value.func.value.id
+            if any(isinstance(x, ast.Call) and ctx.prog.resolve(m, x.func) == "pandas.concat" and x.args and src(x.args[0]) == parts_
+                   for a_ in after for x in ast.walk(a_)):
+                cat.append(st)
     ctx.count(1)
     if len(cat) != 1:
         ctx.finding(q, fl, "the tomogram's chains must be concatenated into the result once per tomogram", fl, m)
